@@ -98,6 +98,33 @@ func (g *vfGen) table(delim string, cols, rows int, nl string, ragged bool) stri
 	return sb.String()
 }
 
+// rectangular table in which cells — the first and the last of a row included — may be empty
+func (g *vfGen) tableEmptyCells(delim string, cols, rows int, nl string) string {
+	var sb strings.Builder
+	for r := 0; r < rows; r++ {
+		var cells []string
+		for i := 0; i < cols; i++ {
+			c := g.cell()
+			if g.rng.Intn(3) == 0 {
+				c = ""
+			}
+			cells = append(cells, c)
+		}
+		switch g.rng.Intn(4) {
+		case 0:
+			cells[0] = ""
+		case 1:
+			cells[cols-1] = ""
+		}
+		if strings.Join(cells, "") == "" {
+			cells[cols/2] = "x"
+		}
+		sb.WriteString(strings.Join(cells, delim))
+		sb.WriteString(nl)
+	}
+	return sb.String()
+}
+
 func (g *vfGen) genC13() {
 	emitCuts := func(kind, s string, secondLineEnd int) {
 		b := []byte(s)
@@ -132,6 +159,8 @@ func (g *vfGen) genC13() {
 		} else {
 			emitCuts(kind+"-ok", t, endOfLine2(t))
 		}
+		te := g.tableEmptyCells(delim, cols, rows, nl)
+		emitCuts(kind+"-ok", te, endOfLine2(te))
 		r := g.table(delim, cols, rows, nl, true)
 		g.emit(vfOp("lines", kind+"-bad", []byte(r), 0))
 		g.emit(vfOp("lines", kind+"-bad", []byte(r), len(r)))
